@@ -78,6 +78,23 @@ def step (s : TreeSet) (op : Spec.OrdSet.Op) (m : Mem) : Out Ã— TreeSet Ã— Mem Ã
   | .lesserThan e => let r := s.lesserThan cmp e; ({ st := some r.1, val := r.2.1 }, s, m, r.2.2)
   | .foreach => ({ log := s.foreach }, s, m, 0)
 
+open Spec.OrdMap (IterOp) in
+/-- one call on a set iterator: `next` reports the yielded element in `val` -/
+def iterStep (s : TreeSet) (it : TreeIter) (op : IterOp) (m : Mem) : Out Ã— TreeSet Ã— TreeIter Ã— Mem :=
+  match op with
+  | .next => let r := s.iterNext it; ({ st := some r.1, val := r.2.1 }, s, r.2.2, m)
+  | .remove =>
+    let r := s.iterRemove cmp it m
+    ({ st := some r.1, val := r.2.1 }, r.2.2.1, r.2.2.2.1, r.2.2.2.2)
+
+open Spec.OrdMap (IterOp) in
+def iterRun (s : TreeSet) (it : TreeIter) : List IterOp â†’ Mem â†’ List Out Ã— TreeSet Ã— TreeIter Ã— Mem
+  | [], m => ([], s, it, m)
+  | op :: rest, m =>
+    let r := s.iterStep cmp it op m
+    let rs := iterRun r.2.1 r.2.2.1 rest r.2.2.2
+    (r.1 :: rs.1, rs.2)
+
 /-- a history; every call starts with its own allocator schedule -/
 def run (s : TreeSet) : List (Spec.OrdSet.Op Ã— List Bool) â†’ Mem â†’ List Out Ã— List (Nat Ã— Nat) Ã— TreeSet Ã— Mem
   | [], m => ([], [], s, m)
